@@ -1221,6 +1221,301 @@ def digit_interval(p, var_bounds):
     return lo, hi, exact
 
 
+class LFrame:
+    """one activation in the ladder discovery: expressions are resolved through parameters to the caller's arguments,
+    through locals that are set once to their initialiser, and through the fields of the current table row"""
+
+    def __init__(self, tu, f, parent=None, call=None):
+        self.tu = tu
+        self.f = f
+        self.x = FnX(tu, f)
+        self.parent = parent
+        self.argmap = {}
+        self.rows = {}        # element variable decl id -> list of field initialisers of the current row
+        if call is not None:
+            for p, a in zip(f.get('params', []), tu.kids(call)[1:]):
+                self.argmap[p['id']] = a
+
+    def resolve(self, e, depth=0):
+        tu = self.tu
+        e = tu.strip(e, casts=True)
+        if e is None or depth > 12:
+            return e, self
+        k = e.get('kind')
+        if k == 'DeclRefExpr':
+            d = e.get('referencedDecl', {}).get('id')
+            if d in self.argmap and self.parent is not None and not self.x.vars[d]['defs']:
+                return self.parent.resolve(self.argmap[d], depth + 1)
+            if d not in self.x.params:
+                init = self.x.single_init(d)
+                if init is not None:
+                    r, fr = self.resolve(init, depth + 1)
+                    if r is not None and r.get('kind') in ('BinaryOperator', 'CharacterLiteral', 'IntegerLiteral',
+                                                           'FloatingLiteral', 'CallExpr', 'DeclRefExpr', 'UnaryOperator'):
+                        return r, fr
+        if k == 'MemberExpr':
+            ks = tu.kids(e)
+            if ks:
+                b = tu.strip(ks[0], casts=True)
+                if b is not None and b.get('kind') == 'DeclRefExpr':
+                    d = b.get('referencedDecl', {}).get('id')
+                    fr = self
+                    while fr is not None:
+                        if d in fr.rows:
+                            fi = tu.sd(e).get('fi')
+                            row = fr.rows[d]
+                            if fi is not None and 0 <= fi < len(row):
+                                return tu.strip(row[fi], casts=True), fr
+                        fr = None
+        return e, self
+
+    def const(self, e):
+        r, fr = self.resolve(e)
+        return num_const(self.tu, r) if r is not None else None
+
+    def char(self, e):
+        r, fr = self.resolve(e)
+        if r is not None and r.get('kind') == 'CharacterLiteral':
+            return chr(int(r.get('value')))
+        return None
+
+    def role(self, e, depth=0):
+        """('param', id) / ('abs', id) of the top-level function's numeric parameter"""
+        tu = self.tu
+        r, fr = self.resolve(e)
+        if r is None or depth > 6:
+            return None
+        k = r.get('kind')
+        if k == 'DeclRefExpr':
+            d = r.get('referencedDecl', {}).get('id')
+            if fr.parent is None and d in fr.x.params and not fr.x.vars[d]['defs']:
+                return ('param', d)
+            return None
+        if k == 'CallExpr' and tu.sd(r).get('q') in ('std::abs', 'abs', 'std::fabs', 'fabs', 'fabsf', 'std::fabsf'):
+            a = tu.kids(r)[1:]
+            rr = fr.role(a[0], depth + 1) if len(a) == 1 else None
+            if rr is not None:
+                return ('abs', rr[1])
+        return None
+
+    def top(self):
+        fr = self
+        while fr.parent is not None:
+            fr = fr.parent
+        return fr
+
+
+def table_rows(tu, fr, hb):
+    """rows of the constant table a range-for walks: (element variable id, [[field initialisers] ...]) or (None, why)"""
+    term = tu.node(hb.term) if hb.term else None
+    if term is None or term.get('kind') != 'CXXForRangeStmt':
+        return None, 'not a range-for'
+    rng = elem = None
+    for vd in tu.walk(term):
+        if vd.get('kind') == 'VarDecl' and (vd.get('name') or '').startswith('__range') and rng is None:
+            rng = vd
+    for st in tu.kids(term):
+        if st.get('kind') == 'DeclStmt':
+            for v2 in tu.kids(st):
+                if v2.get('kind') == 'VarDecl' and not (v2.get('name') or '').startswith('__'):
+                    elem = v2
+    if rng is None or elem is None or not tu.kids(rng):
+        return None, 'cannot find the range / element variable of the loop'
+    src = tu.strip(tu.kids(rng)[0], casts=True)
+    if src is None or src.get('kind') != 'DeclRefExpr':
+        return None, 'the loop does not walk a named table'
+    tv = tu.node(src.get('referencedDecl', {}).get('id'))
+    if tv is None or tv.get('kind') != 'VarDecl':
+        return None, 'the table `%s` has no visible definition' % tu.show(src)
+    ty = tv.get('type', {}).get('qualType', '')
+    if not ty.startswith('const '):
+        return None, 'the table `%s` is not const: its rows may change at run time' % tv.get('name')
+    il = [y for y in tu.kids(tv) if y.get('kind') == 'InitListExpr']
+    if len(il) != 1:
+        return None, 'the table `%s` has no initialiser list' % tv.get('name')
+    rows = []
+    for row in tu.kids(il[0]):
+        if row.get('kind') != 'InitListExpr':
+            return None, 'a row of `%s` is not a braced list' % tv.get('name')
+        rows.append(tu.kids(row))
+    if not rows:
+        return None, 'the table `%s` is empty' % tv.get('name')
+    return (elem['id'], rows, tv.get('name')), None
+
+
+def find_print(tu, fr, blk):
+    """(print call, frame it lives in) for the branch starting at block blk: a printf-family call in the block or inside
+    a helper called from it (one level per call, followed recursively)"""
+    g = fr.x.g
+    for e in blk.el:
+        if e[0] == 'S':
+            nd = tu.node(e[1])
+            if nd is not None and nd.get('kind') == 'CallExpr' and tu.sd(nd).get('q') in PRINTF_Q:
+                return nd, fr, None
+    for e in blk.el:
+        if e[0] == 'S':
+            nd = tu.node(e[1])
+            if nd is not None and nd.get('kind') == 'CallExpr' and tu.sd(nd).get('q') not in PRINTF_Q:
+                hf = tu.callee_fn(nd)
+                if hf is not None and not hf['dep'] and tu.cfg(hf) is not None:
+                    pcs = [y for bb, ii, y in tu.cfg(hf).stmts() if y.get('kind') == 'CallExpr' and tu.sd(y).get('q') in PRINTF_Q]
+                    if len(pcs) == 1:
+                        return pcs[0], LFrame(tu, hf, fr, nd), (nd, hf, pcs[0])
+    return None, fr, None
+
+
+def discover_ladder(tu, fr, rungs, und, depth=0):
+    """walk the CFG of fr.f from its entry and append the rungs found: if / else-if tests against constants, a helper
+    that runs a ladder and reports whether it printed, a range-for over a constant table"""
+    g = fr.x.g
+    b = g.blocks[g.entry]
+    seen = set()
+    while b is not None and b.id not in seen and depth < 4:
+        seen.add(b.id)
+        if b.cond is None or len(b.succ) != 2 or None in b.succ:
+            nxt = [s for s in b.succ if s is not None]
+            if len(nxt) == 1 and nxt[0] != g.exit:
+                b = g.blocks[nxt[0]]
+                continue
+            break
+        term = tu.node(b.term) if b.term else None
+        # ---- a table walked by a range-for
+        if term is not None and term.get('kind') == 'CXXForRangeStmt':
+            tr, why = table_rows(tu, fr, b)
+            if tr is None:
+                und.append(why)
+                break
+            elem, rows, tname = tr
+            body = g.blocks[b.succ[0]]
+            if body.cond is None or len(body.succ) != 2 or None in body.succ:
+                und.append('the body of the loop over `%s` does not start with the rung test' % tname)
+                break
+            # the row that does not match must lead to the next row
+            if b.id not in _reach_blocks(g, body.succ[1], stop=None):
+                und.append('a row of `%s` that does not match does not lead to the next row' % tname)
+                break
+            for i, row in enumerate(rows):
+                fr.rows[elem] = row
+                rg = rung_from_test(tu, fr, body, '%s[%d]' % (tname, i))
+                if rg is None:
+                    und.append('the test in the loop over `%s` is not a comparison of the value with a field of the row' % tname)
+                    break
+                rungs.append(rg)
+            fr.rows.pop(elem, None)
+            b = g.blocks[b.succ[1]]
+            continue
+        c = tu.strip(tu.node(b.cond), casts=True)
+        # ---- a helper that runs (part of) the ladder and reports whether it printed
+        if c is not None and c.get('kind') == 'CallExpr' and tu.sd(c).get('q') not in PRINTF_Q:
+            hf = tu.callee_fn(c)
+            if hf is not None and not hf['dep'] and tu.cfg(hf) is not None and plain_ct(hf['fty'].split('(')[0]) == 'bool':
+                before = len(rungs)
+                discover_ladder(tu, LFrame(tu, hf, fr, c), rungs, und, depth + 1)
+                if len(rungs) == before:
+                    und.append('no rungs found in `%s`' % hf['q'])
+                    break
+                b = g.blocks[b.succ[1]]
+                continue
+        rg = rung_from_test(tu, fr, b, None)
+        if rg is None:
+            if rungs:
+                und.append('ladder test `%s` is not a comparison with a constant' % tu.show(c))
+            break
+        rungs.append(rg)
+        b = g.blocks[b.succ[1]]
+
+
+def _reach_blocks(g, start, stop=None):
+    seen = {start}
+    st = [start]
+    while st:
+        b = st.pop()
+        if b == stop:
+            continue
+        for s in g.blocks[b].succ:
+            if s is not None and s not in seen:
+                seen.add(s)
+                st.append(s)
+    return seen
+
+
+def rung_from_test(tu, fr, b, label):
+    """rung record for the two-way test ending block b (true branch prints), or None if it is not a rung test"""
+    g = fr.x.g
+    c = tu.strip(tu.node(b.cond), casts=True)
+    if c is None or c.get('kind') != 'BinaryOperator' or c.get('opcode') not in ('<', '<=', '>', '>='):
+        return None
+    l, r = tu.kids(c)[:2]
+    op = c['opcode']
+    lv, rv = fr.const(l), fr.const(r)
+    if lv is not None and rv is None:
+        l, r, rv = r, l, lv
+        op = {'<': '>', '<=': '>=', '>': '<', '>=': '<='}[op]
+    elif rv is None:
+        return None
+    role = fr.role(l)
+    call, pfr, helper = find_print(tu, fr, g.blocks[b.succ[0]])
+    rg = {'op': op, 'thr': rv, 'role': role, 'cond': c, 'call': call, 'tested': tu.show(l), 'helper': helper,
+          'label': label, 'frame': fr, 'pframe': pfr}
+    if fr.parent is not None or fr.rows or (helper is not None and False):
+        rg['pre'] = pre_resolve(tu, rg)
+    return rg
+
+
+def pre_resolve(tu, rg):
+    """suffix / divisor / numerator role of a rung whose print is reached through helpers or table rows
+    (floating `%.1f%c` prints only)"""
+    out = {'suffix': None, 'div': None, 'probs': [], 'unds': []}
+    call, pfr = rg['call'], rg['pframe']
+    if call is None:
+        out['unds'].append('no snprintf call in the branch of `%s`' % tu.show(rg['cond']))
+        return out
+    args = tu.kids(call)[1:]
+    fi = None
+    for i, a in enumerate(args):
+        a0 = tu.strip(a, casts=True)
+        if a0 is not None and a0.get('kind') == 'StringLiteral':
+            fi = i
+            break
+    if fi is None:
+        out['unds'].append('format string of the print is not a literal')
+        return out
+    fmt = tu.strip(args[fi], casts=True).get('value', '')
+    m = re.match(r'^"%[-+ 0#]*\d*(?:\.\d+)?l?[fFgGeE](%c|[A-Za-z])?"$', fmt)
+    rest = args[fi + 1:]
+    if not m or not rest:
+        out['unds'].append('format %s is not <number><suffix>' % fmt)
+        return out
+    if m.group(1) == '%c':
+        out['suffix'] = pfr.char(rest[1]) if len(rest) >= 2 else None
+        if out['suffix'] is None:
+            out['unds'].append('suffix character of the print is not a literal')
+    elif m.group(1):
+        out['suffix'] = m.group(1)
+    else:
+        out['unds'].append('the print of this rung has no suffix')
+    sc, sfr = pfr.resolve(rest[0])
+    num = None
+    if sc is not None and sc.get('kind') == 'BinaryOperator' and sc.get('opcode') in ('/', '*'):
+        a, b2 = tu.kids(sc)[:2]
+        av, bv = sfr.const(a), sfr.const(b2)
+        if sc['opcode'] == '/' and bv:
+            num, out['div'] = a, bv
+        elif sc['opcode'] == '*' and bv:
+            num, out['div'] = a, 1.0 / bv
+        elif sc['opcode'] == '*' and av:
+            num, out['div'] = b2, 1.0 / av
+    if num is None:
+        out['unds'].append('printed value `%s` is not input / constant or input * constant' % tu.show(sc))
+    else:
+        nr = sfr.role(num)
+        if nr is None:
+            out['unds'].append('scaled value `%s` is not the input' % tu.show(num))
+        else:
+            out['nrole'] = nr
+    return out
+
+
 def check_ladder(ctx, tu, qname):
     R = 'R-C18-3'
     R10 = 'R-C18-10'
@@ -1234,55 +1529,7 @@ def check_ladder(ctx, tu, qname):
         file, fname = tu.fn_file(f), fn_name(f)
         rungs = []
         und = []
-        b = g.blocks[g.entry]
-        seen = set()
-        while b is not None and b.id not in seen:
-            seen.add(b.id)
-            if b.cond is None or len(b.succ) != 2 or None in b.succ:
-                nxt = [s for s in b.succ if s is not None]
-                if len(nxt) == 1 and not rungs:
-                    b = g.blocks[nxt[0]]
-                    continue
-                break
-            c = tu.strip(tu.node(b.cond), casts=True)
-            if c is None or c.get('kind') != 'BinaryOperator' or c.get('opcode') not in ('<', '<=', '>', '>='):
-                if rungs:
-                    und.append('ladder test `%s` is not a comparison with a constant' % tu.show(c))
-                break
-            l, r = tu.kids(c)[:2]
-            op = c['opcode']
-            lv, rv = num_const(tu, l), num_const(tu, r)
-            if lv is not None and rv is None:
-                l, r, rv = r, l, lv
-                op = {'<': '>', '<=': '>=', '>': '<', '>=': '<='}[op]
-            elif rv is None:
-                if rungs:
-                    und.append('ladder test `%s` is not a comparison with a constant' % tu.show(c))
-                break
-            role = input_role(tu, x, l)
-            # the print in the true branch
-            call = None
-            tb = g.blocks[b.succ[0]]
-            for e in tb.el:
-                if e[0] == 'S':
-                    nd = tu.node(e[1])
-                    if nd is not None and nd.get('kind') == 'CallExpr' and tu.sd(nd).get('q') in PRINTF_Q:
-                        call = nd
-            helper = None
-            if call is None:
-                for e in tb.el:
-                    if e[0] == 'S':
-                        nd = tu.node(e[1])
-                        if nd is not None and nd.get('kind') == 'CallExpr' and tu.sd(nd).get('q') not in PRINTF_Q:
-                            hf = tu.callee_fn(nd)
-                            if hf is not None and not hf['dep'] and tu.cfg(hf) is not None:
-                                pcs = [y for bb, ii, y in tu.cfg(hf).stmts()
-                                       if y.get('kind') == 'CallExpr' and tu.sd(y).get('q') in PRINTF_Q]
-                                if len(pcs) == 1:
-                                    helper = (nd, hf, pcs[0])
-                                    call = pcs[0]
-            rungs.append({'op': op, 'thr': rv, 'role': role, 'cond': c, 'call': call, 'tested': tu.show(l), 'helper': helper})
-            b = g.blocks[b.succ[1]]
+        discover_ladder(tu, LFrame(tu, f), rungs, und)
         if not rungs:
             ctx.undecided(R, '%s %s' % (fname, f['fty']), 'no if / else-if ladder of comparisons with constants found', tu.fn_loc(f))
             n += 1
@@ -1299,7 +1546,14 @@ def check_ladder(ctx, tu, qname):
             div = None
             call = rg['call']
             intpair = None
-            if call is None:
+            pre = rg.get('pre')
+            if pre is not None:
+                suffix, div = pre['suffix'], pre['div']
+                unds += pre['unds']
+                probs += pre['probs']
+                if pre.get('nrole') and pre['nrole'][0] == 'abs' and not unsigned_in:
+                    probs.append(('sign', 'the absolute value is printed: the sign of the input is lost'))
+            elif call is None:
                 unds.append('no snprintf call in the branch of `%s`' % tu.show(c))
             else:
                 rp = RungPrint(tu, x, call, rg.get('helper'))
@@ -1392,7 +1646,8 @@ def check_ladder(ctx, tu, qname):
             elif rg['role'][0] == 'param' and not unsigned_in:
                 probs.append(('tested-value', 'the rung tests the signed input `%s` instead of its absolute value: negative '
                               'inputs take the wrong rung' % rg['tested']))
-            inst = '%s: rung `%s`%s' % (fname, tu.show(c), (" -> '%s'" % suffix) if suffix else '')
+            inst = '%s: rung %s`%s`%s' % (fname, (rg['label'] + ' ') if rg.get('label') else '', tu.show(c),
+                                          (" -> '%s'" % suffix) if suffix else '')
             key0 = '%s|%s|%s|rung-%s' % (R, file, fname, suffix or '?')
             if suffix is not None and div is not None:
                 if suffix not in SI_EXP:
@@ -2150,13 +2405,18 @@ class FileNameTS:
              ('=', v) copy of v     'T' anything else
     '$nosep' in the state: the name is known to contain no separator (every dot is in the last component)."""
 
-    def __init__(self, tu, f, field):
+    SUMMARIES = {}
+
+    def __init__(self, tu, f, field, fkey=None, depth=0):
         self.tu = tu
         self.f = f
         self.x = FnX(tu, f)
         self.g = self.x.g
         self.field = field
-        self.FKEY = ('field', ('this',), field)
+        self.FKEY = fkey or ('field', ('this',), field)
+        self.depth = depth
+        self.ret_vals = set()     # (abstract value, 'nosep' | 'sep' | None) of an integer-returning helper
+        self.helper_kinds = {}    # dot-search kinds found in helpers that were followed
         self.uses = []        # (kind, var name, node)
         self.returns = []     # (node, string value, state dict)
         self.notes = []
@@ -2230,6 +2490,8 @@ class FileNameTS:
             v = self.local(e)
             if v is not None:
                 return self.val(d, v)
+        if k in ('CallExpr', 'CXXMemberCallExpr') and ('call', e.get('id')) in d:
+            return d[('call', e['id'])]
         c = x.poly_at(e, None)
         if c == P_NPOS:
             return 'N'
@@ -2426,9 +2688,77 @@ class FileNameTS:
         if k == 'ReturnStmt':
             ks = tu.kids(n)
             if ks:
-                self.returns.append((n, self.strval(ks[0], d), d))
+                if is_int_ct(tu.sd(tu.strip(ks[0], casts=True)).get('ct') or tu.sd(ks[0]).get('ct')):
+                    rv = self.ev(ks[0], d)
+                    if isinstance(rv, tuple):
+                        rv = self.val(d, rv[1]) if rv[0] == '=' else 'T'
+                    self.ret_vals.add((rv, 'nosep' if d.get('$nosep') else 'sep' if d.get('$sep') else None))
+                else:
+                    self.returns.append((n, self.strval(ks[0], d), d))
             return [st]
+        if k in ('CallExpr', 'CXXMemberCallExpr'):
+            summ = self.helper(n)
+            if summ is not None:
+                out = []
+                for rv, flag in sorted(summ, key=str):
+                    if (flag == 'nosep' and d.get('$sep')) or (flag == 'sep' and d.get('$nosep')):
+                        continue
+                    d2 = dict(d)
+                    if rv in ('D?', 'D') and d2.get('$nosep'):
+                        rv = 'DG?' if rv == 'D?' else 'DG'
+                    d2[('call', n['id'])] = rv
+                    if flag == 'nosep':
+                        d2['$nosep'] = True
+                    elif flag == 'sep':
+                        d2['$sep'] = True
+                    z = self.fz(d2)
+                    if z not in out:
+                        out.append(z)
+                return out
         return [st]
+
+    def helper(self, call):
+        """summary {(returned abstract value, separator flag)} of a file-local / member helper that is handed the name and
+        returns a position; None if the call is not such a helper"""
+        tu = self.tu
+        if self.depth > 3:
+            return None
+        hf = tu.callee_fn(call)
+        if hf is None or hf['dep'] or tu.cfg(hf) is None or hf['id'] == self.f['id']:
+            return None
+        if not is_int_ct(tu.sd(call).get('ct')):
+            return None
+        s, obj, args = tu.call_parts(call)
+        fkey = None
+        if hf.get('rec') == FNAME and call.get('kind') == 'CXXMemberCallExpr':
+            if not hf.get('const') or not (obj is None or tu.is_this(obj)) or self.FKEY[0] != 'field':
+                return None
+            fkey = self.FKEY
+        elif not hf.get('rec'):
+            hits = [i for i, a in enumerate(args) if self.x.objkey(a) == self.FKEY]
+            ps = hf.get('params', [])
+            if len(hits) != 1 or hits[0] >= len(ps) or 'basic_string' not in ps[hits[0]]['ct'] or \
+                    not ps[hits[0]]['ct'].startswith('const '):
+                return None
+            p = ps[hits[0]]
+            fkey = ('var', p['id'], p['name'])
+        else:
+            return None
+        memo = FileNameTS.SUMMARIES.setdefault(id(tu), {})
+        key = (hf['id'], fkey[0])
+        if key not in memo:
+            sub = FileNameTS(tu, hf, self.field, fkey=fkey, depth=self.depth + 1)
+            sub.run()
+            memo[key] = sub
+        sub = memo[key]
+        for u in sub.uses:
+            if u not in self.uses:
+                self.uses.append(u)
+        self.unknown_cmp += [c for c in sub.unknown_cmp if c not in self.unknown_cmp]
+        self.followed = getattr(self, 'followed', [])
+        if hf not in self.followed:
+            self.followed.append(hf)
+        return sub.ret_vals or None
 
     def assign(self, d, v, rhs):
         if rhs is None:
@@ -2528,7 +2858,13 @@ class FileNameTS:
             v = self.root(d, v)
             if a == 'S?':
                 self.setv(d, v, 'N' if eq else 'S')
+                if not eq:
+                    if d.get('$nosep'):
+                        return []
+                    d['$sep'] = True
                 if eq:
+                    if d.get('$sep'):
+                        return []
                     d['$nosep'] = True
                     for k2, w in list(d.items()):
                         if w == 'D?':
@@ -2587,6 +2923,32 @@ class FileNameTS:
         self.g.explore([()], self.transfer, self.refine)
 
 
+def search_kinds(tu, ts, f, kinds, depth, seen=None):
+    """kinds of '.' searches ('last' / 'first' -> example call) made by f or by file-local / member helpers it calls;
+    returns whether the last separator is searched"""
+    seen = seen if seen is not None else set()
+    if f['id'] in seen or depth > 3 or tu.cfg(f) is None:
+        return False
+    seen.add(f['id'])
+    has_sep = False
+    for b, i, n in tu.cfg(f).stmts():
+        k = n.get('kind')
+        q = tu.sd(n).get('q') or ''
+        if k == 'CXXMemberCallExpr' and last_name(q) in FIND_LAST + FIND_DELIM and q.startswith('std::basic_string<'):
+            s, obj, args = tu.call_parts(n)
+            last = last_name(q) in FIND_LAST
+            if args and ts.is_dot(args[0]):
+                kinds.setdefault('last' if last else 'first', n)
+            if args and ts.is_sep(args[0]) and last:
+                has_sep = True
+        elif k in ('CallExpr', 'CXXMemberCallExpr'):
+            hf = tu.callee_fn(n)
+            if hf is not None and not hf['dep'] and (not hf.get('rec') or hf.get('rec') == FNAME) and \
+                    is_int_ct(tu.sd(n).get('ct')) and tu.fn_file(hf) == tu.fn_file(f):
+                has_sep = search_kinds(tu, ts, hf, kinds, depth + 1, seen) or has_sep
+    return has_sep
+
+
 def filename_field(tu):
     for r in tu.records.values():
         if r.get('q') == FNAME:
@@ -2613,18 +2975,9 @@ def check_filename(ctx, tu):
             continue
         ts = FileNameTS(tu, f, field)
         # does the function look for a dot or a separator in the name?
-        has_dot = has_sep = False
         kinds = {}
-        for b, i, n in ts.g.stmts():
-            if n.get('kind') == 'CXXMemberCallExpr' and last_name(tu.sd(n).get('q')) in FIND_LAST + FIND_DELIM and \
-                    (tu.sd(n).get('q') or '').startswith('std::basic_string<'):
-                s, obj, args = tu.call_parts(n)
-                last = last_name(tu.sd(n).get('q')) in FIND_LAST
-                if args and ts.is_dot(args[0]):
-                    has_dot = True
-                    kinds.setdefault('last' if last else 'first', n)
-                if args and ts.is_sep(args[0]) and last:
-                    has_sep = True
+        has_sep = search_kinds(tu, ts, f, kinds, 0)
+        has_dot = bool(kinds)
         name = last_name(f['q'])
         if has_dot:
             searches[name] = (kinds, f)
